@@ -42,9 +42,12 @@ type lmGraph struct {
 	init   string
 }
 
+// lmWithSplit is set by checks that include body splits and re-ingest requests in the action set.
+var lmWithSplit = false
+
 func lmConfig(g *lmm.Geom, initMax uint64, maxOps int, emit bool, overwrite bool) string {
-	s := fmt.Sprintf("CONSTANTS\n  R = %d\n  NB = %d\n  NVox <- NVoxDef\n  InitSV <- InitSVDef\n  InitMax = %d\n  MaxOps = %d\n  Classes1 <- Classes1Def\n  Classes2 <- Classes2Def\n  WithOverwrite = %s\n",
-		g.R, len(g.Blocks), initMax, maxOps, map[bool]string{true: "TRUE", false: "FALSE"}[overwrite])
+	s := fmt.Sprintf("CONSTANTS\n  R = %d\n  NB = %d\n  NVox <- NVoxDef\n  InitSV <- InitSVDef\n  InitMax = %d\n  MaxOps = %d\n  Classes1 <- Classes1Def\n  Classes2 <- Classes2Def\n  WithOverwrite = %s\n  WithSplit = %s\n",
+		g.R, len(g.Blocks), initMax, maxOps, map[bool]string{true: "TRUE", false: "FALSE"}[overwrite], map[bool]string{true: "TRUE", false: "FALSE"}[lmWithSplit])
 	if emit {
 		return "SPECIFICATION SpecEmit\n" + s + "VIEW View\nINVARIANTS EmitObs\nCHECK_DEADLOCK FALSE\n"
 	}
@@ -215,7 +218,11 @@ func (w *lmWorker) start() (string, *lmm.Labels) {
 	for b := range w.g.Blocks {
 		blocks = append(blocks, b+1)
 	}
-	must(w.in.Ingest(o.Root, w.initSV, blocks, false), "ingest")
+	if w.w%2 == 1 {
+		must(w.in.IngestBlocks(o.Root, w.initSV, blocks), "ingest (POST blocks)")
+	} else {
+		must(w.in.Ingest(o.Root, w.initSV, blocks, false), "ingest (POST raw)")
+	}
 	must(w.in.Idle(), "idle")
 	lab := lmm.NewLabels()
 	init := w.gr.states[w.gr.init]
@@ -301,6 +308,9 @@ func (w *lmWorker) explore(sk, uuid string, lab *lmm.Labels) {
 						b := r.Bytes()
 						if ep == "info" {
 							b = snap.NormJSON(b)
+						}
+						if ep == "supervoxel-splits" {
+							b = normSplits(b)
 						}
 						if ep == "mappings" { // unordered listing
 							lines := strings.Split(strings.TrimSpace(string(b)), "\n")
@@ -483,10 +493,13 @@ func checkC08(c *Ctx) int {
 		{"small6/A", small, []uint64{1, 1, 2, 2, 3, 0}, c.pick(3, 4)},
 		{"small6/B", small, []uint64{7, 7, 7, 4, 4, 9}, c.pick(1, 2)}, // with mutating voxel writes (fresh / present / zero label)
 		{"small6/C", small, []uint64{5, 5, 6, 6, 6, 2}, c.pick(2, 3)},
+		{"small6/S", small, []uint64{3, 3, 3, 8, 8, 0}, c.pick(2, 3)}, // with body splits and index / mapping re-ingest
 	}
 	var states, trans, edges, restarts int64
 	for _, lo := range layouts {
+		lmWithSplit = lo.name == "small6/S"
 		gr, s, t := lmExplore(c, lo.g, lo.initSV, lo.ops, lo.ops+1, nil, nil, lo.name == "small6/B")
+		lmWithSplit = false
 		states += s
 		trans += t
 		nw := 12
@@ -544,4 +557,28 @@ func checkC08(c *Ctx) int {
 	fmt.Printf("C08: tlc %d states; %d transitions replayed, %d restarts in %.1fs; violations=%d (C12 label violations=%d)\n",
 		states, edges, restarts, since(t0), run.Violations(), run12.Violations())
 	return run.Finish()
+}
+
+// normSplits orders the records of one mutation (a body split touching several supervoxels
+// logs them in map order) inside GET supervoxel-splits; the order of mutations is kept.
+func normSplits(b []byte) []byte {
+	var top []json.RawMessage
+	if json.Unmarshal(b, &top) != nil {
+		return b
+	}
+	for i, el := range top {
+		var recs [][]uint64
+		if json.Unmarshal(el, &recs) != nil {
+			continue
+		}
+		sort.SliceStable(recs, func(a, c int) bool {
+			if recs[a][0] != recs[c][0] {
+				return recs[a][0] < recs[c][0]
+			}
+			return recs[a][1] < recs[c][1]
+		})
+		top[i], _ = json.Marshal(recs)
+	}
+	out, _ := json.Marshal(top)
+	return out
 }
